@@ -1,7 +1,9 @@
 --------------------------- MODULE PipelineW_Trace ---------------------------
 (***************************************************************************)
 (* Trace validation of the hook events recorded from a concurrent Writer   *)
-(* (one life: Write* [Flush*] Close) against PipelineW.                    *)
+(* (Write* [Flush*] Close, and several such lives separated by Reset:      *)
+(* PipelineW!PEarlyClose / PReopen, model-checked in PipelineWL) against   *)
+(* PipelineW.                                                              *)
 (*                                                                         *)
 (* Hooks fire BEFORE every channel send / close and AFTER every receive,   *)
 (* under one global mutex with a sequence number, so for every channel     *)
@@ -106,6 +108,9 @@ TrPCloseQ ==
     /\ q' = Append(q, Sentinel) /\ ppc' = "closesend"
     /\ UNCHANGED <<pnext, wpc, opc, ocur, chan, sink, err, dataOwner, blockOwner, handled>>
 
+\* preopen: the next life of the same Writer (inserted by the check before the first producer event after p.closed)
+TrReopen == Ev("preopen") /\ PReopen
+
 TrPCloseSend == Ev("p.closesend") /\ PCloseSend
 TrPClosed == Ev("p.closed") /\ PCloseWait
 
@@ -117,9 +122,10 @@ TrEnd ==
            /\ r.poison = <<>>                                   \* no buffer written after Put
            /\ r.leaked = 0                                      \* no library goroutine left after Close
            /\ ppc = "done" /\ opc = "done"
-           /\ (~r.injected => r.status = "ok" /\ r.same /\ ~err /\ Len(sink) = pnext - 1)
+           \* several lives: the sink holds abandoned and complete frames one after the other, `same' is about the last one
+           /\ (~r.injected => (r.lives \/ r.status = "ok") /\ r.same /\ ~err /\ Len(sink) = pnext - 1)
 
-\* runs whose events are not replayed on the model (several lives of one object): sensors only
+\* runs whose events are not replayed on the model (the pipeline never started, hangs): sensors only
 TrSens ==
     /\ Ev("psens") /\ UNCHANGED vars
     /\ LET r == Trace[l]
@@ -128,7 +134,7 @@ TrSens ==
 TraceNext ==
     \/ TrSens
     \/ TrReset \/ TrPQueue \/ TrWOffer \/ TrODequeue \/ TrOTake \/ TrOWrite \/ TrOClose \/ TrWClosed
-    \/ TrPoolPut \/ TrWReleased \/ TrPCloseQ \/ TrPCloseSend \/ TrPClosed \/ TrEnd
+    \/ TrPoolPut \/ TrWReleased \/ TrPCloseQ \/ TrReopen \/ TrPCloseSend \/ TrPClosed \/ TrEnd
 
 TraceSpec == TraceInit /\ [][TraceNext]_tvars
 TraceAccepted == TLCGet("stats").diameter = Len(Trace) + 1
